@@ -15,7 +15,7 @@ static void gen_tail(Rng& r, const GenProfile& gp, std::vector<uint8_t>& out) {
     case 4: ref_encode(gen_mv(r, gp), out); break;                               // a further well-formed item
     case 5: { unsigned n = (unsigned)r.range(1, 12); for (unsigned i = 0; i < n; i++) out.push_back((uint8_t)r.below(256)); break; }   // garbage
     case 6: { std::vector<uint8_t> it = ref_encode(gen_mv(r, gp)); if (!it.empty()) it[r.below(it.size())] ^= (uint8_t)(1u << r.below(8)); out.insert(out.end(), it.begin(), it.end()); break; }  // corrupted successor
-    default: { static const uint8_t B[] = {0xff, 0x1c, 0x5f, 0x9f, 0xbf, 0xc0, 0xf8, 0x7f, 0x81, 0xa1}; out.push_back(B[r.below(sizeof B)]); }
+    default: { static const uint8_t B[] = {0xff, 0xff, 0xff, 0x1c, 0x5f, 0x9f, 0xbf, 0xc0, 0xf8, 0x7f, 0x81, 0xa1}; out.push_back(B[r.below(sizeof B)]); if (r.chance(1, 2)) { unsigned n = (unsigned)r.below(3); for (unsigned i = 0; i < n; i++) out.push_back(r.chance(1, 2) ? 0xff : (uint8_t)r.below(256)); } }
   }
 }
 
@@ -33,7 +33,7 @@ J gen_seq(const std::string& prop, uint64_t run_seed, const std::string& tier) {
   unsigned nconn = (unsigned)g.range(1, 2);
   bool want_faults = prop == "C05" || prop == "C06" || (prop == "C13" && kn.chance(1, 3));
   for (unsigned s = 0; s < nconn; s++) {
-    std::vector<uint8_t> bytes;
+    std::vector<uint8_t> bytes; bool deep_item = false;
     unsigned nitems = (unsigned)g.range(1, 6);
     gp.allow_big = g.chance(1, 40);
     for (unsigned i = 0; i < nitems; i++) {
@@ -41,6 +41,20 @@ J gen_seq(const std::string& prop, uint64_t run_seed, const std::string& tier) {
         static const uint8_t H[] = {0x9a, 0x9b, 0xba, 0xbb};
         uint8_t h = H[g.below(4)]; bytes.push_back(h); int w = (h & 1) ? 8 : 4; uint64_t cnt = g.chance(1, 2) ? gen_u64(g) | (1ull << 28) : (1ull << g.range(10, 40));
         for (int k = w - 1; k >= 0; k--) bytes.push_back((uint8_t)(cnt >> (8 * k)));
+      } else if (g.chance(1, impl_max_stack() <= 64 ? 7 : 150)) {   // nesting around the decoder's limit (what 'nests beyond the limit' and 'never a hard error for a prefix' are about)
+        unsigned L = impl_max_stack(); std::vector<uint64_t> kinds; unsigned nk = (unsigned)g.range(1, 4); for (unsigned k = 0; k < nk; k++) kinds.push_back(g.below(12));
+        unsigned lk = (unsigned)g.below(6); unsigned ll = nest_leaf_levels(lk);
+        uint64_t want; switch (g.below(6)) { case 0: want = L > 1 ? L - 1 : 1; break; case 1: case 2: want = L; break; case 3: case 4: want = (uint64_t)L + 1; break; default: want = (uint64_t)L + g.below(5); }
+        uint64_t depth = want > ll ? want - ll : (ll ? 0 : 1); unsigned lv = 0;
+        nest_chain(kinds, (size_t)depth, lk, bytes, &lv); if (L > 64) deep_item = true;
+      } else if (i + 1 == nitems && g.chance(1, 4)) {   // an item that closes with several adjacent breaks
+        MV outer; outer.kind = g.chance(1, 2) ? MK_ARRAY : MK_MAP; outer.definite = false;
+        unsigned pre = (unsigned)g.below(3); for (unsigned k = 0; k < pre * (outer.kind == MK_MAP ? 2u : 1u); k++) outer.kids.push_back(gen_mv(g, gp, 2));
+        MV inner; switch (g.below(4)) { case 0: inner.kind = MK_ARRAY; inner.definite = false; break; case 1: inner.kind = MK_MAP; inner.definite = false; break; case 2: inner.kind = MK_BSTR; inner.definite = false; break; default: inner.kind = MK_TSTR; inner.definite = false; }
+        if (inner.kind == MK_ARRAY && g.chance(1, 2)) { MV in2; in2.kind = MK_ARRAY; in2.definite = false; inner.kids.push_back(in2); }
+        if (outer.kind == MK_MAP) { MV k; k.kind = MK_UINT; k.width = 1; k.val = 1; outer.kids.push_back(k); }
+        outer.kids.push_back(inner);
+        if (g.chance(1, 3)) { MV t; t.kind = MK_TAG; t.val = 1; t.kids.push_back(outer); ref_encode(t, bytes); } else ref_encode(outer, bytes);
       } else ref_encode(gen_mv(g, gp), bytes);
     }
     gen_tail(g, gp, bytes);
@@ -48,10 +62,10 @@ J gen_seq(const std::string& prop, uint64_t run_seed, const std::string& tier) {
     size_t len = bytes.size();
     J c = J::obj(); c.set("hex", to_hex(bytes));
     std::vector<uint64_t> cuts;
-    unsigned style = (unsigned)net.below(5);
+    unsigned style = (unsigned)net.below(5); if (deep_item) style = 2;   // a deep chain is retried as a whole on every arrival: deliver it in one or two pieces
     if (style == 0 && len <= 150) cuts.assign(len, 1);
     else if (style == 1) { uint64_t m = net.range(2, 17); cuts.assign(len / m + 1, m); }
-    else if (style == 2) {}
+    else if (style == 2) { if (deep_item && net.chance(1, 2)) cuts.push_back(net.range(1, len)); }
     else { uint64_t left = len; while (left > 0 && cuts.size() < 48) { uint64_t k = net.range(1, std::max<uint64_t>(1, std::min<uint64_t>(left, net.chance(1, 3) ? 3 : 30))); cuts.push_back(k); left -= k; } }
     J jc = J::arr(); for (auto v : cuts) jc.push(v); c.set("cuts", jc);
     J d = J::arr(); for (size_t i = 0; i <= cuts.size(); i++) d.push(net.below(4) == 0 ? net.below(50) : net.below(3)); c.set("delays", d);
